@@ -4,6 +4,7 @@ import (
 	"fmt"
 	"go/token"
 	"go/types"
+	"sort"
 	"strings"
 
 	"golang.org/x/tools/go/ssa"
@@ -657,6 +658,46 @@ func checkC06(c *Ctx, r *Report) {
 			r.Fail("E1", construct, c.instrPos(in), "the error result of this call is discarded: a failure here would go unreported")
 		})
 	}
+	// E1' for errors delivered as an argument: the callback of a tree walk
+	// receives the walker's own failure (a missing root, an unreadable
+	// directory) as a parameter; returning nil for it hides the failure
+	nwalk := 0
+	for _, fn := range sortedFuncs(c, scope) {
+		forEachInstr(fn, func(in ssa.Instruction) {
+			call, ok := in.(*ssa.Call)
+			if !ok || !(calleeIs(call, "path/filepath", "", "WalkDir") || calleeIs(call, "path/filepath", "", "Walk") || calleeIs(call, "io/fs", "", "WalkDir")) {
+				return
+			}
+			var cb *ssa.Function
+			for _, a := range call.Call.Args {
+				if ct, ok := a.(*ssa.ChangeType); ok {
+					a = ct.X
+				}
+				switch x := a.(type) {
+				case *ssa.MakeClosure:
+					cb, _ = x.Fn.(*ssa.Function)
+				case *ssa.Function:
+					cb = x
+				}
+			}
+			if cb == nil || cb.Blocks == nil {
+				return
+			}
+			for _, prm := range cb.Params {
+				if !types.Identical(prm.Type(), errorType) {
+					continue
+				}
+				nwalk++
+				construct := fmt.Sprintf("%s: walk callback's error argument", c.funcKey(cb))
+				if ok, why := notSwallowed(c, cb, prm); !ok {
+					r.Fail("E1'", construct, c.instrPos(call), why)
+				} else {
+					r.Pass("E1'", construct, c.instrPos(call), "every path from the failure edge returns a non-nil error")
+				}
+			}
+		})
+	}
+	r.Count("walk_callbacks", nwalk)
 	r.Count("error_returning_calls", calls)
 	r.Count("discard_sites", discards)
 	r.Floor("E1", discards, 8)
@@ -761,6 +802,7 @@ func checkC06(c *Ctx, r *Report) {
 	r.Floor("E2m", e2m, 10)
 
 	checkD9(c, r)
+	checkReferenceRewrite(c, r)
 	checkE3(c, r)
 	if c.Tier == "thorough" {
 		checkDependencyWriters(c, r)
@@ -2102,4 +2144,81 @@ func loopElemField(v ssa.Value) (*ssa.IndexAddr, string, bool) {
 		}
 	}
 	return nil, "", false
+}
+
+// checkReferenceRewrite (E5): a setting that names a file the packagers read
+// (script, changelog, key file) must reach that read as configured: if the
+// parser's expansion step rewrote it, an unset variable would blank the
+// reference and "no such file" would turn into "nothing configured". Only the
+// references documented as expandable may be assigned by the expansion family.
+func checkReferenceRewrite(c *Ctx, r *Report) {
+	// reference fields: Info paths that feed a path argument of a file read
+	pa := newProv(c)
+	refs := map[string]bool{}
+	var roots []*ssa.Function
+	for _, p := range c.Packagers {
+		roots = append(roots, p.Package)
+	}
+	if f := c.Func("", "Validate"); f != nil {
+		roots = append(roots, f)
+	}
+	if m := c.Method("", "Info", "GetChangeLog"); m != nil {
+		roots = append(roots, m)
+	}
+	for _, fn := range sortedFuncs(c, c.Reach(roots...)) {
+		forEachInstr(fn, func(in ssa.Instruction) {
+			call, ok := in.(*ssa.Call)
+			if !ok {
+				return
+			}
+			o := calleeObj(call)
+			if o == nil {
+				return
+			}
+			switch qualifiedName(o) {
+			case "os.Open", "os.OpenFile", "os.ReadFile", "os.Stat", "os.Lstat":
+			default:
+				return
+			}
+			for _, a := range pa.Of(call.Call.Args[0]).fields() {
+				if strings.HasPrefix(a, "Info.") {
+					refs[a] = true
+				}
+			}
+		})
+	}
+	docKeys, err := documentedKeys(c.RepoDir, "This will expand any env var")
+	if err != nil {
+		r.Unresolved("www/docs/configuration.md", err.Error())
+		return
+	}
+	documented := map[string]bool{}
+	for _, f := range walkConfig(c) {
+		for _, k := range docKeys {
+			if f.YAMLPath == k {
+				documented["Info."+strings.TrimPrefix(f.GoPath, "Info.")] = true
+			}
+		}
+	}
+	stores := expansionStorePaths(c)
+	var names []string
+	for a := range refs {
+		names = append(names, a)
+	}
+	sort.Strings(names)
+	n := 0
+	for _, a := range names {
+		n++
+		st, rewritten := stores[a]
+		construct := "file reference " + strings.TrimPrefix(a, "Info.") + " reaches its reader as configured"
+		switch {
+		case !rewritten:
+			r.Pass("E5", construct, "-", "not assigned by the environment expansion")
+		case documented[a]:
+			r.Pass("E5", construct, c.instrPos(st), "assigned by the environment expansion and documented as expandable")
+		default:
+			r.Fail("E5", construct, c.instrPos(st), "the environment expansion rewrites this file reference although it is not documented as expandable: a reference to an unset variable becomes empty, which the packagers read as \"not configured\" instead of failing on the missing file")
+		}
+	}
+	r.Floor("E5", n, 10)
 }
